@@ -257,7 +257,10 @@ def jsonable(x):
     import numpy as np
 
     if isinstance(x, np.ndarray):
-        return {"dtype": str(x.dtype), "shape": list(x.shape), "data": x.tolist()}
+        d = {"dtype": str(x.dtype), "shape": list(x.shape), "data": x.tolist()}
+        if x.ndim >= 2 and not x.flags.c_contiguous:
+            d["order"] = "F" if x.flags.f_contiguous else "strided"      # memory layout (logical content is in "data")
+        return d
     if isinstance(x, (np.integer,)):
         return int(x)
     if isinstance(x, (np.floating,)):
@@ -278,4 +281,12 @@ def jsonable(x):
 def arr_from_json(d):
     import numpy as np
 
-    return np.array(d["data"], dtype=d["dtype"]).reshape(d["shape"])
+    a = np.array(d["data"], dtype=d["dtype"]).reshape(d["shape"])
+    if d.get("order") == "F":
+        a = np.asfortranarray(a)
+    elif d.get("order") == "strided":
+        big = np.zeros(tuple(2 * x for x in a.shape), a.dtype)
+        view = big[tuple(slice(0, None, 2) for _ in a.shape)]
+        view[...] = a
+        a = view
+    return a
